@@ -14,7 +14,16 @@ CALLER = "src/addr/caller.rs"
 SENDER = "src/addr/sender.rs"
 WSENDER = "src/addr/weak_sender.rs"
 CTX = "src/context.rs"
+BRK = "src/broker.rs"
 MUTANTS = [
+ {"name": "broker_publish_delivers_twice", "why": "every live subscriber gets each publication twice", "expect": {"props": ["C09"], "obligation": "broker.publish-inv"},
+  "edits": [(BRK, "            if let Err(_error) = subscriber.send(msg.0.clone()).await {", "            let _ = subscriber.send(msg.0.clone()).await;\n            if let Err(_error) = subscriber.send(msg.0.clone()).await {")]},
+ {"name": "broker_publish_stops_at_dead_subscriber", "why": "a terminated subscriber ends the fan-out: the remaining subscribers miss the publication", "expect": {"props": ["C09"], "obligation": "broker.publish-exactly-once-to-every-live-subscriber-and-to-no-one-else"},
+  "edits": [(BRK, "            if let Err(_error) = subscriber.send(msg.0.clone()).await {\n                // log::warn!(\"Failed to send message to subscriber: {:?}\", error)\n            }", "            if let Err(_error) = subscriber.send(msg.0.clone()).await {\n                return;\n            }")]},
+ {"name": "broker_unsubscribe_is_a_noop", "why": "unsubscribe does not remove the entry: the actor keeps receiving the topic", "expect": {"props": ["C09"], "obligation": "broker.unsubscribe-removes-the-entry"},
+  "edits": [(BRK, "        self.subscribers.remove(&sender.id);\n", "        let _ = &sender.id;\n")]},
+ {"name": "broker_publish_skips_pruning_harmless", "why": "no pruning after a publication: dead entries stay in the table (allowed: never delivered to, never kept alive)", "expect": {"green": True, "props": ["C09"]},
+  "edits": [(BRK, "        self.subscribers\n            .retain(|_, sender| sender.upgrade().is_some());\n", "")]},
  {"name": "env_loop_future_keeps_own_addr", "why": "the loop future captures the actor's own Addr: the mailbox never closes when the last external handle is dropped, the actor never self-terminates", "expect": {"props": ["C05"], "obligation": "loop-future.captures-no-strong-handle-to-its-own-actor"},
   "edits": [(ENV, "        let actor_loop = async move {\n            actor.started(&mut self.ctx).await?;\n\n            let timeout", "        let actor_loop = async move {\n            let _own_addr = &self.addr;\n            actor.started(&mut self.ctx).await?;\n\n            let timeout"), (ENV, "            Ok(actor)\n        };\n\n        (actor_loop, self.addr)\n    }\n\n    pub fn create_loop_on_stream", "            Ok(actor)\n        };\n\n        let addr = self.addr.clone();\n        (actor_loop, addr)\n    }\n\n    pub fn create_loop_on_stream")]},
  {"name": "ctx_drop_does_not_abort", "why": "Context::drop forgets the timers: interval tasks of a dead actor are leaked", "expect": {"props": ["C06", "C10"], "obligation": "ctx.drop-aborts-every-timer"},
